@@ -239,10 +239,15 @@ func (c *stepCtx) expectAccept() (bool, bool) {
 			return false, true // name already used in the message
 		}
 		n := sn.sigs[o.b].size
-		if o.k == "append" {
-			return n <= vinv.PayloadBits(mi.bytes)-sn.lastEnd(mi.lay), true
+		// no overflow: a negative payload holds nothing, otherwise bits >= 0 and the subtrahends are >= 0
+		bits := vinv.PayloadBits(mi.bytes)
+		if bits < 0 {
+			return false, true
 		}
-		return o.z >= 0 && o.z <= vinv.PayloadBits(mi.bytes)-n && sn.rangeFree(mi.lay, -1, o.z, n), true
+		if o.k == "append" {
+			return n <= bits-sn.lastEnd(mi.lay), true
+		}
+		return o.z >= 0 && n <= bits && o.z <= bits-n && sn.rangeFree(mi.lay, -1, o.z, n), true
 	case "resize":
 		if o.a >= nM {
 			return false, false
